@@ -2025,25 +2025,30 @@ class MatrixBase:
 
     def _mat_mul(self, other: 'MatrixBase') -> None:
         """Rotate myself by the other matrix."""
-        # We don't use each row after assigning to the set, so we can re-assign.
+        # Compute all three rows before assigning any of them: other may be this very
+        # matrix (``mat @= mat``), in which case its rows must not change under us.
         # 3-tuple unpacking is optimised.
-        self._aa, self._ab, self._ac = (
+        row_a = (
             self._aa * other._aa + self._ab * other._ba + self._ac * other._ca,
             self._aa * other._ab + self._ab * other._bb + self._ac * other._cb,
             self._aa * other._ac + self._ab * other._bc + self._ac * other._cc,
         )
 
-        self._ba, self._bb, self._bc = (
+        row_b = (
             self._ba * other._aa + self._bb * other._ba + self._bc * other._ca,
             self._ba * other._ab + self._bb * other._bb + self._bc * other._cb,
             self._ba * other._ac + self._bb * other._bc + self._bc * other._cc,
         )
 
-        self._ca, self._cb, self._cc = (
+        row_c = (
             self._ca * other._aa + self._cb * other._ba + self._cc * other._ca,
             self._ca * other._ab + self._cb * other._bb + self._cc * other._cb,
             self._ca * other._ac + self._cb * other._bc + self._cc * other._cc,
         )
+
+        self._aa, self._ab, self._ac = row_a
+        self._ba, self._bb, self._bc = row_b
+        self._ca, self._cb, self._cc = row_c
 
     def _vec_rot(self, vec: VecBase) -> None:
         """Rotate a vector by our value, inplace (even if frozen)."""
